@@ -95,13 +95,14 @@ impl BumpAllocator {
         loop {
             let current = self.current.load(Ordering::Acquire);
 
-            // Calculate aligned offset
-            let aligned_offset = (current + align - 1) & !(align - 1);
-            let new_offset = aligned_offset + size;
-
-            if new_offset > self.capacity {
-                return Err(ZiporaError::out_of_memory(size));
-            }
+            // Calculate aligned offset: align the address, not the offset (the buffer itself
+            // is only guaranteed to be 8-byte aligned)
+            let base = self.buffer.as_ptr() as usize;
+            let aligned_offset = ((base + current + align - 1) & !(align - 1)) - base;
+            let new_offset = match aligned_offset.checked_add(size) {
+                Some(n) if n <= self.capacity => n,
+                _ => return Err(ZiporaError::out_of_memory(size)),
+            };
 
             // Try to atomically update the current offset
             match self.current.compare_exchange_weak(
@@ -162,8 +163,9 @@ impl BumpAllocator {
     /// may allocate between this check and the actual allocation.
     pub fn can_allocate(&self, size: usize, align: usize) -> bool {
         let current = self.current.load(Ordering::Relaxed);
-        let aligned_offset = (current + align - 1) & !(align - 1);
-        aligned_offset + size <= self.capacity
+        let base = self.buffer.as_ptr() as usize;
+        let aligned_offset = ((base + current + align - 1) & !(align - 1)) - base;
+        aligned_offset.checked_add(size).map_or(false, |n| n <= self.capacity)
     }
 }
 
